@@ -18,6 +18,9 @@ void __CPROVER_assert(bool, const char *);
 void *malloc(size_t);
 void free(void *);
 void abort(void);
+// symex dereferences integer-valued addresses (e.g. NULL + member offset on a guarded path) through this built-in array;
+// the C front end declares it, the C++ front end does not
+extern unsigned char __CPROVER_memory[];
 void exit(int);
 }
 #define VSTL_REQ(c, msg) do { __CPROVER_assert((c), "vstl.pre: " msg); __CPROVER_assume(c); } while (0)
